@@ -220,10 +220,11 @@ struct DepthGuard<'a, R> {
 
 impl<'a, 'de, R: Reader<'de>> DepthGuard<'a, R> {
     fn guard(de: &'a mut Deserializer<R>) -> Result<Self> {
-        de.remaining_depth -= 1;
-        if de.remaining_depth == 0 {
+        // (the budget is left untouched on failure: the deserializer may be used again)
+        if de.remaining_depth <= 1 {
             return Err(de.parser.error(RecursionLimitExceeded));
         }
+        de.remaining_depth -= 1;
         Ok(Self { de })
     }
 }
@@ -476,8 +477,8 @@ impl<'de, 'a, R: Reader<'de>> de::Deserializer<'de> for &'a mut Deserializer<R> 
             },
             b'[' => {
                 let ret = {
-                    let _ = DepthGuard::guard(self);
-                    visitor.visit_seq(SeqAccess::new(self))
+                    let guard = tri!(DepthGuard::guard(self));
+                    visitor.visit_seq(SeqAccess::new(&mut *guard.de))
                 };
                 match (ret, self.end_seq()) {
                     (Ok(ret), Ok(())) => Ok(ret),
@@ -486,8 +487,8 @@ impl<'de, 'a, R: Reader<'de>> de::Deserializer<'de> for &'a mut Deserializer<R> 
             }
             b'{' => {
                 let ret = {
-                    let _ = DepthGuard::guard(self);
-                    visitor.visit_map(MapAccess::new(self))
+                    let guard = tri!(DepthGuard::guard(self));
+                    visitor.visit_map(MapAccess::new(&mut *guard.de))
                 };
                 match (ret, self.end_map()) {
                     (Ok(ret), Ok(())) => Ok(ret),
@@ -760,8 +761,8 @@ impl<'de, 'a, R: Reader<'de>> de::Deserializer<'de> for &'a mut Deserializer<R> 
         let value = match peek {
             b'[' => {
                 let ret = {
-                    let _ = DepthGuard::guard(self);
-                    visitor.visit_seq(SeqAccess::new(self))
+                    let guard = tri!(DepthGuard::guard(self));
+                    visitor.visit_seq(SeqAccess::new(&mut *guard.de))
                 };
                 match (ret, self.end_seq()) {
                     (Ok(ret), Ok(())) => Ok(ret),
@@ -806,8 +807,8 @@ impl<'de, 'a, R: Reader<'de>> de::Deserializer<'de> for &'a mut Deserializer<R> 
         let value = match peek {
             b'{' => {
                 let ret = {
-                    let _ = DepthGuard::guard(self);
-                    visitor.visit_map(MapAccess::new(self))
+                    let guard = tri!(DepthGuard::guard(self));
+                    visitor.visit_map(MapAccess::new(&mut *guard.de))
                 };
                 match (ret, self.end_map()) {
                     (Ok(ret), Ok(())) => Ok(ret),
@@ -838,8 +839,8 @@ impl<'de, 'a, R: Reader<'de>> de::Deserializer<'de> for &'a mut Deserializer<R> 
         let value = match peek {
             b'[' => {
                 let ret = {
-                    let _ = DepthGuard::guard(self);
-                    visitor.visit_seq(SeqAccess::new(self))
+                    let guard = tri!(DepthGuard::guard(self));
+                    visitor.visit_seq(SeqAccess::new(&mut *guard.de))
                 };
                 match (ret, self.end_seq()) {
                     (Ok(ret), Ok(())) => Ok(ret),
@@ -848,8 +849,8 @@ impl<'de, 'a, R: Reader<'de>> de::Deserializer<'de> for &'a mut Deserializer<R> 
             }
             b'{' => {
                 let ret = {
-                    let _ = DepthGuard::guard(self);
-                    visitor.visit_map(MapAccess::new(self))
+                    let guard = tri!(DepthGuard::guard(self));
+                    visitor.visit_map(MapAccess::new(&mut *guard.de))
                 };
                 match (ret, self.end_map()) {
                     (Ok(ret), Ok(())) => Ok(ret),
@@ -881,8 +882,8 @@ impl<'de, 'a, R: Reader<'de>> de::Deserializer<'de> for &'a mut Deserializer<R> 
             Some(b'{') => {
                 self.parser.read.eat(1);
                 let value = {
-                    let _ = DepthGuard::guard(self);
-                    tri!(visitor.visit_enum(VariantAccess::new(self)))
+                    let guard = tri!(DepthGuard::guard(self));
+                    tri!(visitor.visit_enum(VariantAccess::new(&mut *guard.de)))
                 };
 
                 match self.parser.skip_space() {
